@@ -149,6 +149,21 @@ CHECKS['C09'] = (
     'multiband and per-frequency-loss spans are not judged here.',
     'DESIGN.md 3/C09')
 
+CHECKS['C10'] = (
+    'complete enumeration of synthetic equipment libraries (subsets of 9 amplifier archetypes, two NF data sets under the same '
+    'names, both design orders in one process) x deviation-bounded operating points through designed_network',
+    'For every library made of 1-3 (thorough: 1-4) of 9 archetypes (low/medium/high gain, low p_max, fixed gain, quiet but not '
+    'allowed for design, L-band, noisy, Raman hybrid) and every operating point within 1 (quick) / 2 (thorough) deviations over '
+    'span length, fibre loss coefficient (scalar below/above the Raman limit, per-frequency tables), design power, channel count, '
+    'restriction source (none, amplifier variety list, ROADM booster / preamp lists, combinations) and topology, every '
+    'auto-selected amplifier must be permitted by the stated precedence, cover the design band, be a Raman model only after a '
+    'fibre whose every loss coefficient is below the limit, deliver the required gain and power whenever a permitted in-range '
+    'model can, and have the lowest noise figure among those. Each case designs twice in one process with different noise data '
+    'under the same model names, so results that depend on earlier designs are caught reproducibly.',
+    'Required gain/power come from the C09 budget model, noise figures from the C04 models; operating points within 1e-6 dB of a '
+    'capability boundary and rounding ties are unjudged; OpenROADM models (NF depends on input power) are not in the archetypes.',
+    'DESIGN.md 3/C10')
+
 ALL = [f'C{i:02d}' for i in range(1, 21)]
 NOT_BUILT_REASON = 'check not built yet in this round (planned, see DESIGN.md section 3); not claimed until it runs'
 
